@@ -363,6 +363,9 @@ def bnot(c):
     if c[0] == 'ite' and c[2][0] == 'c' and c[3][0] == 'c' and {c[2][1], c[3][1]} == {0, 1}: c = as_cond(c)
     if c[0] == 'c': return C(0 if c[1] else 1)
     if c[0] == 'bnot': return c[1]
+    # over the integers !(a < b) is b <= a and !(a <= b) is b < a: one spelling for both ways of writing a refusal
+    if c[0] == 'lt': return cmp('le', c[2], c[1])
+    if c[0] == 'le': return cmp('lt', c[2], c[1])
     return ('bnot', c)
 
 def b_and(a, b):
